@@ -146,7 +146,7 @@ class SequenceMatcher(BaseMatcher):
         # but if we don't have any tail, we can exit early if the lengths
         # don't match
         if (not any_tail and len(value) != len(self.matchers)) or (
-            any_tail and len(value) < len(self.matchers) - 1
+            any_tail and len(value) < len(self.matchers)
         ):
             return (False, {})
 
